@@ -47,6 +47,11 @@ LABELK = ("int", "unsorted", "desc", "str")
 BS = (1, 2, 3, 5, 8, 13, 20, 50)
 SEEDS = (0, 1, 42, 2**32 - 1, 2**63 + 5)
 TOL = 1e-9
+# center=False models: EOFBootstrapper orients members by mean(x*y)/(std x std y), which is the uncentred moment, not the
+# Pearson correlation (the two agree whenever the model's scores have zero mean, i.e. for centred models).  By default the
+# check accepts either reading for such models and only COUNTS negative Pearson correlations (advisory, evidence file);
+# set to True to turn them into violations (tags: model_center=False, symptom=member_mode_anticorrelated_pearson_uncentred_model).
+STRICT_PEARSON_FOR_UNCENTRED_MODELS = False
 
 # ----------------------------------------------------------------------------- M-RES
 _EVENTS = []
@@ -778,6 +783,13 @@ def run_case(case, obs):
                     n_modes_oriented += 1
                     if r < -1e-9:
                         n_neg_pearson_uncentred += 1
+                        if STRICT_PEARSON_FOR_UNCENTRED_MODELS:
+                            obs.check(
+                                "member_mode_pearson_nonnegative_uncentred_model",
+                                False,
+                                f"member {i + 1} mode {m + 1}: Pearson correlation {r:.3e} < 0 (uncentred correlation {ru:.3e}); model fitted with center=False",
+                                tags=dict(mt, model_center=False, symptom="member_mode_anticorrelated_pearson_uncentred_model"),
+                            )
                     obs.check(
                         "member_mode_correlates_nonnegatively",
                         r >= -1e-9 or ru >= -1e-9,
